@@ -90,7 +90,7 @@ def fmt_str(f):
 def key_of(par):
     if par['kind'] == 'DecCtx':
         return key_of(par['base'])
-    return repr(sorted((k, v if not isinstance(v, list) else tuple(map(repr, v))) for k, v in par.items() if k not in ('alpha', 'cand')))
+    return repr(sorted((k, v if not isinstance(v, list) else tuple(map(repr, v))) for k, v in par.items() if k not in ('alpha', 'cand', 'seeds')))
 
 
 def describe(par):
